@@ -4,6 +4,7 @@ import (
 	"errors"
 	"fmt"
 	"net/http"
+	"net/url"
 	"strconv"
 	"strings"
 	"sync"
@@ -61,6 +62,23 @@ type c02Call struct {
 	status    int
 }
 
+type c02CopyRT struct{ inner http.RoundTripper }
+
+func (rt c02CopyRT) RoundTrip(req *http.Request) (*http.Response, error) {
+	return rt.inner.RoundTrip(req.WithContext(req.Context()))
+}
+
+// c02HostID extracts the exchange id from a tunnel authority "x<id>.<rest>".
+func c02HostID(h string) int {
+	if strings.HasPrefix(h, "x") {
+		if i := strings.IndexByte(h, '.'); i > 1 {
+			id, _ := strconv.Atoi(h[1:i])
+			return id
+		}
+	}
+	return -1
+}
+
 func c02ID(req *http.Request) int {
 	if req.Method == "CONNECT" {
 		h := req.URL.Host
@@ -87,6 +105,12 @@ func runC02(k *kernel.K) {
 	// hijacker that leaves input unread takes the reset upon itself)
 	n.LogSystemOps = true
 	proxy, l := newProxyA(k, n)
+	if w.Chance(1, 3) {
+		// a round tripper that hands a copy of the request on (the usual req.WithContext wrapper
+		// around the transport): the response it returns names the copy
+		k.Probe("round_tripper_passes_a_copy")
+		proxy.SetRoundTripper(c02CopyRT{proxy.GetRoundTripper()})
+	}
 	k.AddSource(k.GateSource)
 	// refuse.test has no handler: dials are refused. timeout.test: dials hang, then time out.
 	n.TimeoutAddrs = map[string]bool{"timeout.test:80": true}
@@ -243,6 +267,44 @@ func runC02(k *kernel.K) {
 		})
 	}
 
+	// Downstream-proxy mode (a sixth of the runs): every connection is a CONNECT, forwarded to a
+	// downstream proxy that establishes the tunnel (200) or refuses it (403 with a body) - the
+	// refusal is relayed to the client like any other response, after the response modifier.
+	ds := w.Chance(1, 6)
+	if ds {
+		k.Probe("downstream_proxy_mode")
+		u, _ := url.Parse("http://dsproxy.test:3128")
+		proxy.SetDownstreamProxy(u)
+		n.Handle("dsproxy.test:3128", func(c *simnet.Conn) {
+			rp := wire.NewReqParser()
+			id, up := 0, false
+			var got []byte
+			c.OnData(func(b []byte) {
+				if !up {
+					rp.Feed(b)
+					if len(rp.Msgs) == 0 {
+						return
+					}
+					up = true
+					id = c02HostID(rp.Msgs[0].Target)
+					tunnelConns[id] = c
+					if strings.Contains(rp.Msgs[0].Target, "nowhere") {
+						k.Probe("downstream_proxy_refuses_connect")
+						c.Inject([]byte("HTTP/1.1 403 Forbidden\r\nContent-Length: 6\r\nX-Refused-By: dsproxy\r\n\r\ndenied"))
+						return
+					}
+					c.Inject([]byte("HTTP/1.1 200 Connection established\r\n\r\n"))
+					b = rp.Raw
+					rp.Raw = nil
+				}
+				got = append(got, b...)
+				tunnelGot[id] = got
+				if strings.HasSuffix(string(got), fmt.Sprintf("PING%d", id)) {
+					c.Inject([]byte(fmt.Sprintf("PONG%d", id)))
+				}
+			}, func() { c.Close() }, nil)
+		})
+	}
 	nconn := w.Range(1, 3)
 	var clients []*Client
 	connPlans := map[int][]*c02Plan{}
@@ -250,7 +312,7 @@ func runC02(k *kernel.K) {
 	for ci := 0; ci < nconn; ci++ {
 		c := NewClient(k, l, fmt.Sprintf("cl%d", ci), fmt.Sprintf("10.1.0.%d", ci+2))
 		clients = append(clients, c)
-		isConnect := w.Chance(1, 4)
+		isConnect := ds || w.Chance(1, 4)
 		nreq := w.Range(1, 4)
 		if isConnect {
 			nreq = 1
@@ -432,6 +494,8 @@ func runC02(k *kernel.K) {
 			switch {
 			case p.reqBeh == "skip":
 				path = "skip"
+			case p.unreachable && ds:
+				path = "ds_refused"
 			case p.unreachable:
 				path = "502"
 			case p.connect:
@@ -532,6 +596,11 @@ func runC02(k *kernel.K) {
 				}
 				if resp.Status != 200 {
 					k.Fail("C02.skip_200_resmod", nil, "%s: skipped round trip answered with status %d, want 200", desc, resp.Status)
+				}
+			case "ds_refused":
+				k.Probe("path_downstream_refusal_relayed")
+				if resp.Status != 403 || string(resp.Body) != "denied" || resp.First("X-Refused-By") != "dsproxy" {
+					k.Fail("C02.error_continues", map[string]string{"path": "downstream_refusal"}, "%s: the downstream proxy refused the CONNECT with a 403 (body \"denied\"); the client received status %d, body %q", desc, resp.Status, resp.Body)
 				}
 			case "502":
 				k.Probe("path_502")
